@@ -92,6 +92,7 @@ pub fn execute(scn: &WfScn, ctx: &mut Ctx) {
         return;
     };
     run_faulted(scn, &g, ctx);
+    execute_c05(scn, None, ctx);
 }
 
 fn run_faulted(scn: &WfScn, g: &Golden, ctx: &mut Ctx) {
@@ -251,5 +252,111 @@ pub fn unit(seed: u64, ctx: &mut Ctx, ctl: &mut UnitCtl) {
             plan.faults.push(Fault { dev: dev as u8, at: r.below(g.ops[dev].max(1) as u64 * 2) as u32, kind: FaultKind::Err(r.below(4) as u8), persistent: false });
         }
         case(plan, ctx, ctl);
+    }
+}
+
+/// C05 under a cleanly failed write: a one-shot fault on the very first device operation of a
+/// non-first write_shape (Direct stack, so nothing of the record was transferred) makes that
+/// call fail; the history goes on. The finalized header box must equal the extremes of the
+/// shapes that were written - the failed one is not among them.
+pub fn unit_c05(seed: u64, ctx: &mut Ctx, ctl: &mut UnitCtl) {
+    let mut r = Rng::new(seed);
+    let ty = *r.pick(&TYPES);
+    let mut k = ShapeKnobs::draw(&mut r);
+    k.zm &= !F_NAN;
+    k.max_parts = k.max_parts.min(3);
+    k.max_pts = k.max_pts.min(4);
+    let n = r.usize(2, 5);
+    let shapes: Vec<ShapeSpec> = (0..n).map(|_| gen_spec(&mut r, ty, &k)).collect();
+    let mut calls: Vec<WCall> = Vec::new();
+    for i in 0..n {
+        calls.push(WCall::W(i));
+        if r.chance(1, 4) {
+            calls.push(WCall::Fin);
+        }
+    }
+    let w = WProg { shapes, others: vec![], calls, ending: if r.chance(1, 2) { Ending::Drop } else { Ending::FinDrop }, with_shx: r.chance(1, 2), stack: StackCfg::Direct };
+    // golden run: where does each write call start on the .shp device?
+    let world = World::new(Plan::default());
+    let run = run_writer(&world, &w);
+    if run.build_panic.is_some() || run.marks.iter().any(|m| !m.res.is_ok()) {
+        ctx.fail("HARNESS", "invalid-scenario", "workload", "generated workload does not run cleanly".to_string());
+        ctl.after_case(ctx, || Scenario::WFault(WfScn { w: w.clone(), plan: Plan::default() }));
+        return;
+    }
+    let firsts: Vec<(usize, u32)> = {
+        let wb = world.borrow();
+        run.marks
+            .iter()
+            .filter(|m| m.call.starts_with("write("))
+            .map(|m| (m.call_no, wb.log[..m.first_ev].iter().filter(|e| e.dev as usize == SHP).count() as u32))
+            .collect()
+    };
+    for (call_no, op) in firsts.into_iter().skip(1) {
+        let mut plan = Plan::default();
+        plan.faults.push(Fault { dev: SHP as u8, at: op, kind: FaultKind::Err((op % 4) as u8), persistent: false });
+        let scn = WfScn { w: w.clone(), plan };
+        if !ctl.before_case(|| Scenario::WFault(scn.clone())) {
+            continue;
+        }
+        ctx.stats.evaluations += 1;
+        execute_c05(&scn, Some(call_no), ctx);
+        ctl.after_case(ctx, || Scenario::WFault(scn.clone()));
+    }
+}
+
+/// Run a faulted workload and judge C05 on the final header if exactly the write calls hit by a
+/// fault on their first device operation failed and nothing else did.
+pub fn execute_c05(scn: &WfScn, expect_failed_call: Option<usize>, ctx: &mut Ctx) {
+    if scn.w.stack != StackCfg::Direct {
+        return;
+    }
+    let world = World::new(scn.plan.clone());
+    let run = run_writer(&world, &scn.w);
+    if run.build_panic.is_some() {
+        return;
+    }
+    let wb = world.borrow();
+    ctx.stats.absorb_world(&wb);
+    // which calls failed, and did each failing call transfer nothing at all?
+    let mut failed_clean = true;
+    let mut failed_calls = Vec::new();
+    for m in &run.marks {
+        if m.res.is_ok() {
+            continue;
+        }
+        failed_calls.push(m.call_no);
+        let moved: u64 = wb.log[m.first_ev..m.end_ev].iter().map(|e| e.moved as u64).sum();
+        let events = m.end_ev - m.first_ev;
+        if !m.call.starts_with("write(") || moved != 0 || events != 1 {
+            failed_clean = false;
+        }
+    }
+    if failed_calls.is_empty() || !failed_clean {
+        ctx.stats.reach("c05-fault-not-a-clean-failed-write");
+        return;
+    }
+    if let Some(c) = expect_failed_call {
+        if failed_calls != vec![c] {
+            ctx.stats.reach("c05-fault-hit-another-call");
+        }
+    }
+    // never the first write of the file (it reserves the header before the record)
+    let first_write = run.marks.iter().find(|m| m.call.starts_with("write(")).map(|m| m.call_no);
+    if failed_calls.iter().any(|c| Some(*c) == first_write) {
+        return;
+    }
+    ctx.stats.reach("c05-clean-failed-write-judged");
+    let ty = scn.w.shapes[0].ty;
+    let written: Vec<&Geom> = run.written.iter().map(|i| &run.geoms[*i]).collect();
+    match crate::refcodec::decode_layout(wb.data(SHP)) {
+        Ok(dec) => {
+            if dec.recs.len() != written.len() {
+                ctx.stats.reach("c05-record-count-differs-after-failed-write");
+                return;
+            }
+            crate::fam_rt::check_header_bbox(ctx, "header after a write_shape that failed before transferring a byte", ty, &written, &dec.bbox);
+        }
+        Err(_) => ctx.stats.reach("c05-file-not-decodable-after-failed-write"),
     }
 }
